@@ -3,7 +3,7 @@ import J5V.Go.Outcome
 # C16 — `convertSchema` (`internal/export/convert.go`), the shape of its recursion (core only)
 
 One constructor per member of the oneof `j5.schema.v1.Field.type` (the source-fact obligation
-`C16_swagger_total` checks that `convertSchema` has an arm for each), plus the three ways an input
+`C16_src_swagger_arms` checks that `convertSchema` has an arm for each), plus the three ways an input
 can be malformed: a field whose `type` oneof is unset (`unset` → the `default:` arm), an enum /
 object / oneof field whose `schema` oneof is unset (`…Unset` → the inner `default:` arms), and a nil
 `*Field` where one is dereferenced (`nil` → run-time panic on `schema.Type`).
